@@ -67,7 +67,7 @@ INVALID_KINDS = ['dup_assign_prev', 'dup_assign_same_call', 'self_mixed',
                  'chain_dup_name', 'chain_dup_agg_keys']
 REQUIRED = (['stream_checks', 'input_identity_checks', 'sink_checks',
              'rebatch_checks', 'selftest_checks', 'invalid_build_checks',
-             'invalid_twin_checks', 'trigger_chains']
+             'invalid_twin_checks', 'trigger_chains', 'array_twin_checks']
             + ['rebatch_apply', 'rebatch_assign', 'rebatch_select', 'rebatch_batch']
             + [f'op_{o}' for o in OPS] + [f'key_{s}' for s in SHAPES]
             + [f'invalid_{k}' for k in INVALID_KINDS])
@@ -253,6 +253,60 @@ def check_chain_case(ctx, case, resolve_fn=None):
     detail = dict(detail, also=[k for k, _ in problems[1:]],
                   chain=[op_tags(op) for op in chain])
     ctx.violation(kind, case, detail, mechanism=mech)
+    return
+  try:
+    array_twin(ctx, case, chain, g.dec(case['records']), feed, resolve_fn)
+  except Exception as e:  # pylint: disable=broad-exception-caught
+    ctx.inconclusive_case(f'array twin oracle failed: {type(e).__name__}: {e}', case)
+
+
+def _plain(o):
+  """ndarrays -> lists, numpy scalars -> Python scalars, containers kept."""
+  if hasattr(o, 'tolist') and not isinstance(o, (list, tuple, dict, str)):
+    return o.tolist()
+  if isinstance(o, dict):
+    return {k: _plain(v) for k, v in o.items()}
+  if type(o) is list:  # pylint: disable=unidiomatic-typecheck
+    return [_plain(v) for v in o]
+  if type(o) is tuple:  # pylint: disable=unidiomatic-typecheck
+    return tuple(_plain(v) for v in o)
+  return o
+
+
+def array_twin(ctx, case, chain, records, feed, resolve_fn):
+  """The same chain over the same column records held in int64 ndarrays.
+
+  Only for streams of column records (dicts of int lists) and chains that re-batch:
+  the outputs, arrays turned back into lists, must be the list run's outputs.
+  """
+  import numpy as np
+  from vlib.oracles import pipeline_interp as interp
+  if not records or not all(
+      isinstance(r, dict) and r and all(
+          type(v) is list and v and all(type(x) is int for x in v)  # pylint: disable=unidiomatic-typecheck
+          for v in r.values()) for r in records):
+    return
+  if not any(op.get('fbs') or op.get('bs') or op['op'] == 'batch' for op in chain):
+    return
+  if any(op['op'] == 'sink' for op in chain):
+    return
+  want, _ = interp.run_chain(chain, records, resolve_fn)
+  arr = [{k: np.array(v, dtype=np.int64) for k, v in r.items()} for r in records]
+  ctx.count('array_twin_checks')
+  try:
+    got, _ = run_real(chain, arr, feed, resolve_fn)
+  except Exception as e:  # pylint: disable=broad-exception-caught
+    ctx.violation('array_twin_raised', case,
+                  {'error': f'{type(e).__name__}: {short(str(e), 200)}', 'want': short(want),
+                   'chain': [op_tags(op) for op in chain]},
+                  mechanism='array_twin:raised:' + op_tags(chain[-1]).split('[')[0])
+    return
+  got = _plain(got)
+  if not same(got, want):
+    ctx.violation('array_twin_differs', case,
+                  {'got': short(got), 'want': short(want),
+                   'chain': [op_tags(op) for op in chain]},
+                  mechanism='array_twin:stream_differs')
 
 
 def gen_chain_case(rseed, chunk, index):
@@ -275,7 +329,12 @@ def gen_trigger_case(rseed, index):
     shape = 'list'
   _, records = g.gen_records(rng, shape=shape, n=rng.randint(2, 5))
   chain = g.gen_trigger_chain(rng, records, trigger)
-  if not chain or g.chain_triggers(chain) != [trigger]:
+  if not chain:
+    return None
+  if trigger in g.UNTRIGGERED:
+    if g.chain_triggers(chain):
+      return None
+  elif g.chain_triggers(chain) != [trigger]:
     return None
   return {'chain': chain, 'records': g.enc(records), 'feed': 'list'}
 
